@@ -20,7 +20,7 @@ LEVEL = "fault_enumeration"
 SHARDS = {"quick": 16, "thorough": 16}
 MUST = ["cut.cases", "kind.bytes", "kind.bytesio", "kind.file", "kind.realfile", "kind.shortfile", "kind.socket_closed",
         "kind.socketpair_closed", "empty.cases", "random.cases", "via_definition.cases", "cut.in_header", "cut.in_body",
-        "cut.on_border", "progress.cases"]
+        "cut.on_border", "progress.cases", "big.maxsize_cases", "big.beyond20MB_cases"]
 RULE = ("fault = end of data at byte offset c of a valid stream; enumerated: every c in 0..len for 6 base streams "
         "(1-4 packets, prefix k in {0,3}, data lengths 1..300) x source kinds {bytes, BytesIO default, "
         "BytesIO r in {1,7,4096}, recording file, short-read file, real file, scripted socket closed by peer, real "
@@ -191,6 +191,34 @@ def _one(ctx, data, k, kind, r, entry, defn, cls, rng, progress):
             os.unlink(tmp)
 
 
+def big_cases(ctx, defn, rng):
+    from space_packet_parser import packets as P
+    import random
+    fixed = random.Random(77)
+    small = [bytes(P.create_ccsds_packet(bytes(fixed.getrandbits(8) for _ in range(d)), apid=5, sequence_count=i)) for i, d in enumerate((3, 1, 9))]
+    maxp = bytes(P.create_ccsds_packet(bytes([fixed.getrandbits(8)]) * 65536, apid=6))
+    stream = small[0] + maxp + small[1] + maxp[:6] + bytes(65536) + small[2]
+    borders = [0, len(small[0]), len(small[0]) + len(maxp), len(small[0]) + len(maxp) + len(small[1])]
+    cuts = sorted({len(stream)} | {b + d for b in borders + [len(stream) - len(small[2])] for d in (-1, 0, 1, 5, 6, 7, 300) if 0 <= b + d <= len(stream)})
+    jobs = [(c, kind, r) for c in cuts for kind, r in (("bytes", None), ("bytesio", None), ("file", 4096), ("socket_closed", None))]
+    for j, (c, kind, r) in enumerate(jobs):
+        if ctx.mine(j):
+            one(ctx, stream[:c], 0, kind, r, ("raw", "headers_only", "definition")[j % 3], defn, "maxsize", rng)
+            ctx.count("big.maxsize_cases")
+    # beyond 20 MB (each shard does one configuration; the stream is ~21 MB of 65542-byte packets plus a tail)
+    configs = [("bytes", None, 0), ("bytesio", None, 0), ("file", 1 << 20, 0), ("bytes", None, 3), ("file", 1 << 20, 3), ("bytesio", 1 << 16, 0)]
+    for ci, (kind, r, k) in enumerate(configs):
+        if not ctx.mine(ci + 11):
+            continue
+        n = 325
+        pk = [bytes(P.create_ccsds_packet(bytes([i & 0xFF]) * 65536, apid=i % 2048, sequence_count=i % 16384)) for i in range(n)]
+        pre = bytes([0xEE]) * k
+        big = b"".join(pre + p for p in pk) + pre + small[0] + pre + small[1][:5]
+        one(ctx, big, k, kind, r, "raw", defn, "beyond-20MB", rng)
+        one(ctx, big[:20_500_000], k, kind, r, "headers_only", defn, "beyond-20MB", rng)
+        ctx.count("big.beyond20MB_cases")
+
+
 def run(ctx):
     import random
     try:
@@ -232,6 +260,9 @@ def run(ctx):
                 ctx.count("cut.cases")
                 ctx.count({"in-header": "cut.in_header", "in-body": "cut.in_body", "on-border": "cut.on_border"}.get(cls, "cut.other"))
     ctx.exhaustive_space("cut offsets 0..len of 6 base streams x 12 source configurations", 1)
+    # ---- large inputs: a maximum-size packet (65536 data octets) between small ones; a stream beyond the framer's 20 MB
+    #      buffer-trim threshold. Cut offsets sampled: around every packet border, inside headers, and the complete stream ----
+    big_cases(ctx, defn, rng)
     # ---- empty input on every kind, every entry -------------------------------------------------------------
     for kind, r in kinds:
         for entry in entries:
